@@ -598,7 +598,9 @@ def run_classical(case, acc, cache=None):
             # content looked at in the spin-resolved form; nothing documents which energy these blocks reproduce for an
             # ROHF reference (PySCF converts to UMP2 on non-canonical orbitals), so the value is only reported
             what["E(spin-resolved reference contraction of the blocks)"] = e_uhf(I.act, r1, r2)
-            cx.bad("spin-resolved-tuples-for-restricted-molecule", what)
+            # The return FORMAT is not part of C13 and no documented energy is reproducible for ROHF-MP2 (non-canonical
+            # orbitals): counted as an observation (DESIGN.md 7.4), not reported as a violation.
+            acc.count("observation_mp2_rohf_returns_spin_resolved_tuples")
             check_rdms(cx, mol, I, "uhf", r1, r2, e, float("inf"), prem, api=False)
             return
         r1, r2 = np.asarray(r1), np.asarray(r2)
